@@ -234,7 +234,9 @@ static void vp_call(u32 y[4], const u32 x[4], const u32* K, int dec)
 {
 	memcpy(y, x, 16);
 #if FN == 1
-	{ octet* blk = (octet*)vp_alloc(16); vp_st4(blk, x); if (dec) beltBlockDecr(blk, K); else beltBlockEncr(blk, K); vp_ld4(y, blk); }
+	/* octet entry point: the 16 octets are the four words in little-endian order (this host: OCTET_ORDER == LITTLE_ENDIAN,
+	 * the big-endian branch of beltBlockEncr is not compiled); the octet view is checked on word 0 by h_fn_* itself */
+	if (dec) beltBlockDecr((octet*)y, K); else beltBlockEncr((octet*)y, K);
 #elif FN == 2
 	if (dec) beltBlockDecr2(y, K); else beltBlockEncr2(y, K);
 #else
